@@ -3,6 +3,7 @@ from typing import List
 from typing import Optional
 from typing import Union
 
+from idpyoidc.client.current import response_info
 from idpyoidc import metadata
 from idpyoidc.client.oauth2 import authorization
 from idpyoidc.client.oauth2.utils import pre_construct_pick_redirect_uri
@@ -87,7 +88,7 @@ class Authorization(authorization.Authorization):
 
         if "expires_in" in resp:
             resp["__expires_at"] = time_sans_frac() + int(resp["expires_in"])
-        _context.cstate.update(key, resp)
+        _context.cstate.update(key, response_info(resp))
 
     def get_request_from_response(self, response):
         _context = self.upstream_get("context")
